@@ -547,7 +547,7 @@ func ZZC03_copy_schedules() {
 			tagWrites++
 		}
 	}
-	zzTurnBudget(1 + zzTier())
+	zzTurnBudget(2 + zzTier())
 	turn := func(ctx context.Context, req *reghttp.Req, ev *zzreg.Event) int {
 		zzTurnSig(zzSigOf(ev))
 		return 0
